@@ -59,6 +59,35 @@ def random_doc(rng, size='small', version=None, layout=None, ifdata=None, a2ml=N
     return node, text, toks
 
 
+def apply_positions(node):
+    """reorder the children of every block the way the writer is documented to: the slots that position-restricted
+    children occupy are filled with those children in ascending position (children with equal positions keep their
+    order).  Returns True when an order changed."""
+    from checks import loadlib
+    pt = loadlib.pos_types()
+    changed = False
+    for n, _parent in node.walk():
+        slots, items = [], []
+        for i, k in enumerate(n.kids):
+            ent = pt.get(k.type.encode()) if k.type else None
+            if ent is None:
+                continue
+            pos = ent[1] if ent[0] == 'const' else k.fields[ent[1]].value
+            slots.append(i)
+            items.append((pos, len(items), k))
+        if len(items) > 1:
+            ordered = sorted(items, key=lambda x: (x[0], x[1]))
+            if [x[1] for x in ordered] != list(range(len(items))):
+                changed = True
+                for slot, (_p, _i, k) in zip(slots, ordered):
+                    n.kids[slot] = k
+                if n.payload is not None:
+                    pslots = [i for i, x in enumerate(n.payload) if any(x is it[2] for it in items)]
+                    for slot, (_p, _i, k) in zip(pslots, ordered):
+                        n.payload[slot] = k
+    return changed
+
+
 def duplicate_named(node, rng, sp, times=None):
     """give some name-keyed lists (MEASUREMENT .. of a MODULE, OVERWRITE of an INSTANCE, ...) two or three elements with the
     same name: for OVERWRITE (component name + axis number) that is what a valid file looks like, for the others it is a
